@@ -680,6 +680,10 @@ def rule_r6(prog, res) -> None:
                 return False
 
             contains_any = any(is_any(x) for x in ast.walk(m))
+            tol = next((x for x in ast.walk(m) if isinstance(x, ast.Call) and (dotted(x.func) or "").split(".")[-1] in ("isclose", "allclose")), None)
+            if tol is not None:
+                res.violation("C11.R6", w, sels[0], f"the mask of stored patch pairs compares the counts with zero within a tolerance (`{unparse(tol)[:50]}`): pairs whose counts are small (tiny weights) but not zero are dropped from the file and read back as zeros", key_extra="sparse-mask-tolerance")
+                continue
             arith = any(isinstance(x, ast.Call) and (dotted(x.func) or "").split(".")[-1] in ("sum", "nansum", "mean", "prod", "max", "min") for x in ast.walk(m)) or isinstance(m, ast.Compare)
             ax_bad = None
             if is_any(m):
